@@ -111,11 +111,11 @@ def gen(rng, kind):
             "delta": delta, "const": const, "xpt": xpt, "improve_tcg": bool(rng.random() < 0.6), "convex": convex}
 
 
-def gen_improve(rng):
+def gen_improve(rng, nmin=3, nmax=6):
     """the rarest path of the linearly constrained tangential solver: non-convex models (the truncated conjugate gradients
     end on the trust-region boundary), several free dimensions, bounds of very different widths and inequality rows with
     moderate slack, so that the boundary-improvement phase makes MORE THAN ONE rotation"""
-    n = int(rng.integers(3, 7))
+    n = int(rng.integers(nmin, nmax + 1))
     m = int(rng.integers(1, 4))
     g = rng.normal(size=n) * float(rng.choice([1.0, 1.0, 3.0]))
     B = rng.normal(size=(n, n))
